@@ -51,7 +51,14 @@ def run_case(draw):
         # and with unique inputs the request that caused one must not be sent again
         api["ops"][draw(st.integers(0, len(api["ops"]) - 1))]["drop_negative"] = True
         cfg["unique_inputs"] = True
-    return {"api": api, "config": cfg, "stop": stop}
+    inp = {"api": api, "config": cfg, "stop": stop}
+    if draw(st.integers(0, 5)) == 0:
+        # the project has a Hypothesis profile of its own loaded (conftest / hooks module); the configured limits still govern,
+        # also when they happen to equal Hypothesis' built-in defaults
+        inp["hypothesis_profile"] = {"max_examples": draw(st.sampled_from([7, 150]))}
+        cfg["max_examples"] = draw(st.sampled_from([cfg["max_examples"], 100]))
+        inp["stop"] = {"kind": "none"}
+    return inp
 
 
 def request_key(req):
@@ -75,7 +82,18 @@ def check_run(ctx: Ctx, inp) -> None:
 
     server = loopback.shared(script)
     server.probe_reply = runs.probe_reply(api)
-    record = engine_run.run_engine(runs.build_doc(api), cfg, server, stop=stop, max_wall_s=60)
+    profile = inp.get("hypothesis_profile")
+    if profile:
+        import hypothesis
+
+        hypothesis.settings.register_profile("vfw-project", max_examples=profile["max_examples"])
+        hypothesis.settings.load_profile("vfw-project")
+        ctx.classes["own-hypothesis-profile-loaded"] += 1
+    try:
+        record = engine_run.run_engine(runs.build_doc(api), cfg, server, stop=stop, max_wall_s=60 if not profile else 150)
+    finally:
+        if profile:
+            hypothesis.settings.load_profile("default")
     returned_at = time.monotonic()
     if record.exception:
         ctx.case(classes=["engine-exception"])
